@@ -137,8 +137,20 @@ class Session:
     def request(self, method, params, timeout=20.0):
         return self.wait(self.send_request(method, params), timeout)
 
-    def initialize(self, timeout=20.0):
-        r = self.request("initialize", {"processId": None, "rootUri": uri(self.root), "capabilities": self.caps}, timeout)
+    def initialize(self, timeout=20.0, encodings=None):
+        """`encodings`: the client's general.positionEncodings (LSP 3.17), in order of preference; None = not sent.
+        Afterwards self.enc is the encoding both sides have to use: the server's capabilities.positionEncoding if it is one the
+        client offered, otherwise the protocol's default utf-16."""
+        caps = json.loads(json.dumps(self.caps))
+        if encodings:
+            caps.setdefault("general", {})["positionEncodings"] = list(encodings)
+        r = self.request("initialize", {"processId": None, "rootUri": uri(self.root), "capabilities": caps}, timeout)
+        self.enc = "utf-16"
+        self.enc_announced = None
+        if r and isinstance(r.get("result"), dict):
+            self.enc_announced = (r["result"].get("capabilities") or {}).get("positionEncoding")
+            if self.enc_announced is not None:
+                self.enc = self.enc_announced
         self.notify("initialized", {})
         return r
 
